@@ -13,7 +13,7 @@ LEVEL = 'other'
 EXPLANATION = (
     "Static analysis of lang/parsing.py. (R6) Both parsers are folded end to end: PolishParser / StandardParser / ParseContext are rebuilt as MRO-bound classes whose methods are the repository's own definitions interpreted by the checker (nothing is imported or run by CPython), over the real parse tables, mock lexical classes with the real construction contracts, and a mutable and a frozen predicate store; on every well-formed sentence up to a size bound, every one-character mutation of those and every short string the outcome is a ParseError or a closed sentence (no free, vacuous or re-bound variable; one arity per predicate symbol), never another exception; the Polish parser agrees with an independent reader of the grammar. (R1) every explicit raise in the parser classes is a ParseError subclass or reviewed; constructor calls are wrapped or have a reviewed shape. (R2) store-API compatibility with an interprocedural isinstance guard. (R3) bind/check_bound/unbind folded over all small states. (R4) every while loop advances or exits. (R5) effect confinement. Decided on a bounded input language; totality over all strings and RecursionError are declined. (R7) the lexical constructors the parsers call are folded (lexfold, shared with C14.R1): their comparison key, which is the key of the shared construction cache, distinguishes every two different specs -- otherwise a later parse gets an earlier, different sentence back.")
 TRUSTED = ['CPython ast', 'sa.minieval', 'errors.py class hierarchy as parsed']
-ASSUMPTIONS = ['lexical constructors raise only ValueError/TypeError for malformed arguments (lang/lex.py not analysed for escapes)']
+ASSUMPTIONS = ['lexical constructors raise ValueError for out-of-range coordinates (decided for Predicate.__init__ / CoordsItem.__new__ by R9) and TypeError only for ill-typed arguments, which the parsers never pass']
 
 PAR = 'pytableaux.lang.parsing'
 ERR = 'pytableaux.errors'
@@ -86,6 +86,7 @@ def run(ctx, rep):
     r5(ctx, rep)
     r7(ctx, rep)
     r8(ctx, rep)
+    r9(ctx, rep)
 
 
 def r8(ctx, rep):
@@ -404,3 +405,64 @@ def r5(ctx, rep):
                         rep.finding(R5, f'C13.R5/{qn}/{astq.u(f)}', m.loc(PAR, c), qn, f'`{astq.u(c)[:50]}` mutates parser state other than the predicate store')
     rep.floor('C13.R5', 'stores / mutating calls', n, 6)
     # (a parse runs in a fresh context: decided by R6's history pass -- one parser instance re-used over the whole corpus)
+
+
+def r9(ctx, rep):
+    """The parser turns the constructors' ValueError into ParseError (R1 checks the handlers).  That an out-of-range *value* --
+    arity 0 deduced from a predicate symbol without parameters, an index beyond the type's maximum, a negative subscript --
+    is refused with ValueError and nothing else is decided on the constructors: Predicate.__init__ and CoordsItem.__new__ folded."""
+    import collections as _c
+    from ..minieval import Interp, Obj, Raised
+    m = ctx.m
+    LEXM = 'pytableaux.lang.lex'
+    R9 = rep.rule('C13.R9', 'what the parser\'s handlers catch is what the constructors raise: Predicate.__init__ and CoordsItem.__new__ folded on well-typed but '
+                            'out-of-range coordinates (arity 0, index beyond the maximum, negative subscript) raise ValueError, the exception the parser converts')
+    pinit = m.func(LEXM, 'Predicate.__init__')
+    cnew = m.func(LEXM, 'CoordsItem.__new__')
+    rep.consult(m.loc(LEXM, pinit) + ' Predicate.__init__', m.loc(LEXM, cnew) + ' CoordsItem.__new__')
+    cases = []
+    # Predicate.__init__ runs after __new__ has set the coordinates
+    for spec, why in (((0, 0, 0), 'arity 0'), ((1, 3, 0), 'arity 0 with a subscript'), ((0, 0, -1), 'negative arity')):
+        itp = Interp(dict(BiCoords=lambda *a: a, ValueError=ValueError, TypeError=TypeError, len=len), where='lang/lex.py Predicate.__init__')
+        me = Obj('predicate', index=spec[0], subscript=spec[1], arity=spec[2], spec=spec, System=True)
+        try:
+            itp.call(pinit, [me, *spec])
+            got = 'accepted'
+        except ValueError:
+            got = 'ValueError'
+        except TypeError:
+            got = 'TypeError'
+        except Raised as e:
+            got = e.text
+        cases.append((f'Predicate{spec} ({why})', got))
+    BiC = _c.namedtuple('BiCoords', 'index subscript')
+    BiC.sorting = lambda s_: (s_.subscript, s_.index)
+
+    class InstErr(TypeError):
+        pass
+
+    def inst(v, t):
+        if not isinstance(v, t):
+            raise InstErr(v)
+        return v
+    for spec, why in (((4, 0), 'index beyond the maximum'), ((0, -1), 'negative subscript'), ((9, 9), 'index beyond the maximum')):
+        itn = Interp(dict(object=Obj('object', __new__=lambda c: Obj('item', Coords=BiC, TYPE=Obj('TYPE', maxi=3, rank=20)), __setattr__=setattr),
+                          check=Obj('check', inst=inst), ValueError=ValueError, TypeError=TypeError, AttributeError=AttributeError, zip=zip), where='lang/lex.py CoordsItem.__new__')
+        try:
+            itn.call(cnew, [Obj('cls'), *spec])
+            got = 'accepted'
+        except ValueError:
+            got = 'ValueError'
+        except TypeError:
+            got = 'TypeError'
+        except Raised as e:
+            got = e.text
+        cases.append((f'coordinates {spec} ({why})', got))
+    for case, got in cases:
+        ok = got == 'ValueError'
+        rep.instance(R9, ok=ok, nontrivial=case)
+        if not ok:
+            rep.finding(R9, f'C13.R9/{case}', m.relfile(LEXM), 'lexical constructors',
+                        f'{case}: the constructor answers with {got}; the parsers convert ValueError into ParseError, anything else escapes them '
+                        f'(an undeclared predicate symbol without parameters makes the parser deduce arity 0)')
+    rep.floor('C13.R9', 'out-of-range cases', len(cases), 6)
